@@ -1703,6 +1703,7 @@ func main() {
 			}
 		}
 		cases = append(cases, genSynth(rng.Fork(), *synthN)...)
+		cases = append(cases, genResign(vs, rng.Fork())...)
 	}
 
 	// phases by process-wide switches (lax cannot be unset, so it comes last)
